@@ -28,7 +28,7 @@ VERIF = os.path.dirname(HERE)
 CACHE = os.environ.get('OPTREE_VERIF_CACHE') or os.path.join(VERIF, '.cache')
 CLANG = 'clang++-14'
 PYBIND_INC = '/venv/lib/python3.12/site-packages/torch/include'
-IR_VERSION = '17'
+IR_VERSION = '18'
 
 CONFIGS = {
     # name: (CPython include dir, extra flags)
@@ -239,6 +239,8 @@ class _TUBuilder:
                     self._locskip_head(c)
                     has_init = any(isinstance(x, dict) and x.get('kind') for x in c.get('inner', []))
                     rec.fields.append((c.get('name'), c.get('type', {}).get('qualType'), has_init))
+                    if c.get('mutable'):
+                        rec.mutable_fields.append(c.get('name'))
                     self._skip_children(c)
                     continue
                 if ck == 'VarDecl' and rec is not None:
